@@ -148,6 +148,9 @@ var pauseProgramsFmt = []string{
 	"S:1:B,E,1,11,E,0,12:2:0:0:0 S:2:R,1,3:3:0:0:0 O:dpause=%d,retry=1000,stamp=1",
 	"S:1:R,1,2:2:0:0:0 T:2:10:E,1,13:3:%d O:retry=-1",
 	"S:1:F,3,11,R,1,2:2:0:%d:0 S:2:R,1,3:3:0:0:0 O:retry=500,stamp=1",
+	// a per-step count together with a workflow default (larger and smaller): the step's own count decides
+	"S:1:E,1,11:2:0:%d:0 S:2:R,1,3:3:0:0:0 O:dpause=5,retry=1000,stamp=1",
+	"S:1:E,1,11:2:0:%d:0 S:2:R,1,3:3:0:0:0 O:dpause=2,retry=1000,stamp=1",
 	// two processes failing with the SAME error text on one run: counted per process
 	"S:1:F,2,11,R,1,2:2:0:%[1]d:0 S:2:F,2,11,R,1,3:3:0:%[1]d:0 S:3:F,1,11,R,1,4:4:0:%[1]d:0 O:retry=-1",
 }
@@ -160,6 +163,9 @@ var badReturnPrograms = []prog{
 	mkProg("huge-step", "S:1:R,1,123456789:2:0:0:0"),
 	mkProg("undeclared-cb", "S:1:R,1,2:2:0:0:0 C:2:R,1,7:3"),
 	mkProg("zero-cb", "S:1:R,1,2:2:0:0:0 C:2:R,1,0:3"),
+	// two callbacks on one status: the first returns an undeclared destination — Callback returns that error and goes no further
+	mkProg("undeclared-first-of-two-cbs", "S:1:R,1,2:2:0:0:0 C:2:R,1,7:3 C:2:R,1,3:3"),
+	mkProg("undeclared-first-of-two-cbs-skip", "S:1:R,1,2:2:0:0:0 C:2:R,1,7:3 C:2:R,1,0:3"),
 	mkProg("undeclared-timeout", "S:1:R,1,2:2:0:0:0 T:2:10:R,1,8:3:0"),
 	mkProg("selfloop", "S:1:R,1,2:2:0:0:0 S:2:B,R,1,2,R,1,3:2,3:0:0:0"),
 	mkProg("terminal-return", "S:1:R,1,3:2,3:0:0:0 S:2:R,1,3:3:0:0:0"),
